@@ -22,8 +22,10 @@ package pubsubcoreapi
 //@   loop 2 ghost A := all
 //@   loop 2 invariant noDup(A) && all == A && len(leaving) == 0
 //@   loop 2 invariant forall x Str :: (x in oldMembers) <==> (inList(M0, x) && !(exists i Int :: 0 <= i && i < $i && A[i] == x))
-//@   loop 2 invariant forall x Str :: inList(joining, x) <==> ((exists i Int :: 0 <= i && i < $i && A[i] == x) && !inList(M0, x))
+//@   loop 2 invariant forall j Int :: 0 <= j && j < len(joining) ==> !inList(M0, joining[j]) && (exists i Int :: 0 <= i && i < $i && A[i] == joining[j])
+//@   loop 2 invariant forall i Int :: 0 <= i && i < $i && !inList(M0, A[i]) ==> inList(joining, A[i])
 //@   loop 2 invariant noDup(joining)
+//@   assert @ loop 2 body: !inList(joining, m)
 //@   loop 3 invariant forall x Str :: inList(leaving, x) <==> $seen[x]
 //@   loop 3 invariant noDup(leaving)
 //@   ensures err == nil ==> (forall x Str :: inList(joining, x) <==> (inList(p.members, x) && !inList(M0, x)))
